@@ -283,6 +283,39 @@ class Converter(NxHarness):
             S.prove(f"gate-list-maps-generator-into-group-of-G2-with-sign[{i}]", O.member_by_enumeration(w, gens2))
 
 
+class IsLcConstructed(NxHarness):
+    """pairs that are LC equivalent BY CONSTRUCTION, for sizes where the pair space is out of reach: G symbolic,
+    G2 := G (v = -1) or G2 := oracle local complementation of G at v.  The answer must be yes (soundness of the
+    returned Q is checked as in IsLcEquivalent); a 'no' is a violation unless it is the known finding F4."""
+
+    weight = 85
+
+    def input_space(self):
+        return self.n * (self.n - 1) // 2
+
+    def declare(self, S):
+        return declare_graph(S, self.n)
+
+    def body(self, S, spec):
+        import graphiq.backends.lc_equivalence_check as lc
+
+        n, v = self.n, self.v
+        a1 = cells(spec["adj"])
+        a2 = a1 if v < 0 else lc_oracle(a1, v, n)
+        adj2 = spec["adj"].copy()
+        for i in range(n):
+            for j in range(n):
+                adj2[i, j] = a2[i][j]
+        ok, sol = lc.is_lc_equivalent(spec["adj"].copy(), adj2, mode="deterministic")
+        if not ok:
+            S.info["answered_no"] = 1
+            S.fail("equivalent-by-construction-but-answered-no", "is_lc_equivalent returned False for G2 = " + ("G" if v < 0 else f"LC_{v}(G)"))
+            return
+        Q = [[sol[i][0, 0], sol[i][0, 1], sol[i][1, 0], sol[i][1, 1]] for i in range(n)]
+        S.prove("solution-is-valid-local-Clifford", q_valid(Q, n))
+        S.prove("solution-satisfies-LC-condition", q_equation(Q, a1, a2, n))
+
+
 class LcCheckTableau(NxHarness):
     """lc_check / state_converter_circuit with a TABLEAU as second state (the property covers graphs, adjacency
     matrices and tableaux): state1 = symbolic graph, state2 = arbitrary valid stabilizer tableau.  Whenever the
@@ -345,6 +378,15 @@ def plan(tier):
         jobs.append((Converter(n=n, api="converter_gate_list"), {}))
         jobs.append((Converter(n=n, api="lc_check"), {}))
         jobs.append((Converter(n=n, api="state_converter_circuit"), {}))
+    for v in ([-1, 0] if q else [-1, 0, 1, 2, 3, 4]):
+        h = IsLcConstructed(n=5, v=v)
+        h.parallel = True
+        jobs.append((h, {"time_budget": 1200, "chunk_paths": 16}))
+    if not q:
+        for v in (-1, 0):
+            h = IsLcConstructed(n=6, v=v)
+            h.parallel = True
+            jobs.append((h, {"time_budget": 5400, "chunk_paths": 32}))
     for order in ("graph-first", "tableau-first"):
         jobs.append((LcCheckTableau(n=2, order=order), {}))
         h = LcCheckTableau(n=3, order=order)
